@@ -200,7 +200,8 @@ Proof.
       exists []. rewrite app_nil_r. split; [reflexivity|]. split; [constructor|]. rewrite accept_from_nil. exact Hv.
     + apply Hin in Hr. destruct Hr as [y [Hy Hx]]. apply in_map_iff in Hy. destruct Hy as [k [Hk Hkin]].
       destruct (step a (fst st) k) as [st'|] eqn:Hs.
-      * apply (IH st' (k :: rk) y Hk) in Hx. destruct Hx as [key [-> [Hf Ha]]].
+      * destruct (fst st' =? fst st); [discriminate|].
+        apply (IH st' (k :: rk) y Hk) in Hx. destruct Hx as [key [-> [Hf Ha]]].
         exists (k :: key). split; [cbn [rev]; rewrite <- app_assoc; reflexivity|].
         split; [constructor; [apply all_bytes_in; exact Hkin|exact Hf]|].
         rewrite accept_from_cons, Hs. exact Ha.
@@ -211,13 +212,14 @@ Proof.
       destruct (step a (fst st) k) as [st'|] eqn:Hs; [|discriminate].
       inversion Hf as [|k' key' Hk Hf']; subst.
       assert (Hkin : In k all_bytes) by (apply all_bytes_in; exact Hk).
-      assert (Hel : In (keys_from f a st' (k :: rk))
+      assert (Hel : In (if fst st' =? fst st then None else keys_from f a st' (k :: rk))
                        (map (fun k0 => match step a (fst st) k0 with
                                        | None => Some []
-                                       | Some st'0 => keys_from f a st'0 (k0 :: rk)
+                                       | Some st'0 => if fst st'0 =? fst st then None else keys_from f a st'0 (k0 :: rk)
                                        end) all_bytes)).
       { apply in_map_iff. exists k. rewrite Hs. split; [reflexivity|exact Hkin]. }
-      destruct (Hall _ Hel) as [y Hy]. exists y. split; [rewrite <- Hy; exact Hel|].
+      destruct (Hall _ Hel) as [y Hy]. destruct (fst st' =? fst st); [discriminate|].
+      exists y. split; [rewrite <- Hy; exact Hel|].
       apply (IH st' (k :: rk) y Hy). exists key. split; [cbn [rev]; rewrite <- app_assoc; reflexivity|].
       split; assumption.
 Qed.
@@ -314,13 +316,14 @@ Proof.
   - cbn in Hw. injection Hw as <-. unfold alen. lia.
   - cbn [walk] in Hw. destruct (step a (fst st) k) as [st1|] eqn:Hs; [|discriminate].
     inversion Hk as [|k' t' Hk1 Hk2]; subst.
-    assert (Hel : In (keys_from f a st1 (k :: rk))
+    assert (Hel : In (if fst st1 =? fst st then None else keys_from f a st1 (k :: rk))
                      (map (fun k0 => match step a (fst st) k0 with
                                      | None => Some []
-                                     | Some st'0 => keys_from f a st'0 (k0 :: rk)
+                                     | Some st'0 => if fst st'0 =? fst st then None else keys_from f a st'0 (k0 :: rk)
                                      end) all_bytes)).
     { apply in_map_iff. exists k. rewrite Hs. split; [reflexivity|apply all_bytes_in; exact Hk1]. }
-    destruct (Hall _ Hel) as [y Hy]. exact (IH st1 (k :: rk) y Hy t st' Hk2 Hw).
+    destruct (Hall _ Hel) as [y Hy]. destruct (fst st1 =? fst st); [discriminate|].
+    exact (IH st1 (k :: rk) y Hy t st' Hk2 Hw).
 Qed.
 
 Section InBounds.
